@@ -27,7 +27,9 @@ RULE = ('seeded conversations: server scripts (bursts of 1..30 messages of '
         'distinct (client, transport, probe, script-shape) and URL-shape '
         'signatures; plus announced heartbeats {300/60, 130/5, 3600/30, '
         '25/20, 0.5/0.25, 60/120 s} x transport x client: three idle '
-        'intervals each ended by a PING, then silence (bounded both ways)')
+        'intervals each ended by a PING, then silence (bounded both ways); '
+        'half of the asyncio conversations run over a REAL '
+        'aiohttp.ClientSession (world R)')
 ASSUMPTIONS = ['threaded client runs under the FIFO schedule for the order '
                'oracle (its message handlers are started as one task per '
                'message)',
